@@ -22,7 +22,7 @@ FLOORS = {'quick': {'split': 250, 'piece-lib': 4000, 'piece-defn': 4000, 'input-
                     'decompose': 80, 'bezier-piece': 200},
           'thorough': {'split': 3000, 'piece-lib': 40000, 'decompose': 800}}
 MANDATORY_TAGS = ['curve', 'surface-u', 'surface-v', 'rational', 'on-knot', 'on-knot-full', 'in-span', 'near-start', 'dir:uv',
-                  'dir:u', 'dir:v', 'span:binary', 'unnormalized']
+                  'dir:u', 'dir:v', 'span:binary', 'unnormalized', 'interior-multiplicity-p+1', 'on-jump-knot', 'caller-knot-value']
 TECHNIQUE = ("runtime monitoring: exact reference-model oracle on every piece returned by split_* / decompose_* under the affine "
              "re-parametrisation, plus before/after digests of the input object")
 LEVEL_TEXT = ("Each split / decomposition performed by the workload is judged piece by piece against the exact original shape and "
@@ -36,6 +36,47 @@ def gen(rng, tier, shard, nshards):
         sd = G.rand_shape(rng, pdim, clamped_only=True, normalize=rng.random() < 0.75,
                           maxextra={1: 6, 2: 4}[pdim], maxdeg={1: 6, 2: 4}[pdim])
         yield {'kind': 'split', 'sd': sd, 'seed': rng.randrange(1 << 30), 'span': rng.choice(['default', 'linear', 'binary'])}
+        if i % 4 == 1:
+            # an interior knot of multiplicity degree + 1 (the shape is discontinuous there; a valid knot vector all the same)
+            sdd = discontinuous_shape(rng, pdim)
+            if sdd is not None:
+                yield {'kind': 'split', 'sd': sdd, 'seed': rng.randrange(1 << 30), 'span': rng.choice(['default', 'linear', 'binary']),
+                       'discontinuous': True}
+        if i % 4 == 2:
+            # an interior knot whose decimal value below 0.01 is not reproduced by an 18-decimal round trip: the caller later names the
+            # value it supplied, the object holds a neighbouring double
+            sds = G.rand_shape(rng, pdim, clamped_only=True, normalize=True, kvcls='random', maxextra=4, mindeg=2, maxdeg=4)
+            ok = False
+            for d_, (kv, p_) in enumerate(zip(sds['kvs'], sds['degrees'])):
+                if len(kv) > 2 * (p_ + 1):
+                    k_ = rng.uniform(0.002, 0.0099)
+                    if k_ < kv[p_ + 1] - 1e-3 or len(kv) == 2 * (p_ + 1) + 1:
+                        kv[p_ + 1] = k_
+                        ok = True
+            if ok:
+                yield {'kind': 'split', 'sd': sds, 'seed': rng.randrange(1 << 30), 'span': 'default', 'caller_knot': True}
+
+
+def discontinuous_shape(rng, pdim):
+    for _ in range(20):
+        sd = G.rand_shape(rng, pdim, clamped_only=True, kvcls='random', normalize=rng.random() < 0.7, maxextra=6, maxdeg=3)
+        d = rng.randrange(pdim)
+        p, kv = sd['degrees'][d], sd['kvs'][d]
+        interior = kv[p + 1:len(kv) - p - 1]
+        if len(interior) < p + 1:
+            continue
+        a, b = kv[0], kv[-1]
+        j = rng.randint(0, len(interior) - (p + 1))
+        v = interior[j + (p + 1) // 2]
+        if not a < v < b:
+            continue
+        new = interior[:j] + [v] * (p + 1) + interior[j + p + 1:]
+        new.sort()
+        if max(Counter(new).values()) > p + 1:
+            continue
+        sd['kvs'][d] = kv[:p + 1] + new + kv[len(kv) - p - 1:]
+        return sd
+    return None
 
 
 def affine(c0, c1, lo, hi):
@@ -73,8 +114,12 @@ def judge_piece(ctx, rng, piece, S0, sub, tol, desc, expect_class=None, expect_d
     S1 = G.defn_of(piece)
     # keep mapped parameters either exactly on original knots or clear of them (span decision must not hinge on 1 ulp)
     good = []
+    # interior knots of multiplicity p + 1: the original jumps there (its value is the right limit), a piece ending there holds the left limit
+    jumps = [set(k for k, c in Counter(U[p + 1:len(U) - p - 1]).items() if c >= p + 1) for p, U in zip(S0.p, S0.U)]
     for q in prms:
         q0 = mapf(q)
+        if any(F(x) in js for x, js in zip(q0, jumps)):
+            continue
         if so.clear_of_knots(S0, q0, 1e-9) and so.clear_of_knots(S1, q, 1e-9):
             good.append(q)
     a = so.compare_object(ctx, piece, S0, good, tol, 'piece/library-eval', '%s: piece does not coincide with the original' % desc,
@@ -104,6 +149,8 @@ def check(case, ctx):
         kw['find_span_func'] = helpers.find_span_linear
     ctx.tag('span:' + case['span'], 'rational' if sd['rational'] else 'nonrational',
             'normalized' if sd['normalize_kv'] else 'unnormalized')
+    if case.get('discontinuous'):
+        ctx.tag('interior-multiplicity-p+1')
     before = G.snapshot(o)
     doms = G.domains_of(o)
     degs = G.degrees_of(o)
@@ -116,13 +163,24 @@ def check(case, ctx):
         U = G.kvs_of(o)[d]
         cnt = Counter(U)
         full = [k for k in so.interior_distinct(degs[d], U) if cnt[k] == degs[d]]
-        if full and rng.random() < 0.25:
+        callers = []
+        if case.get('caller_knot'):
+            # the values the caller supplied for the interior knots of this direction (shape dict), where the object holds another double
+            callers = [k for k in set(sd['kvs'][d][degs[d] + 1:-degs[d] - 1]) if k not in cnt and min(abs(k - x) for x in cnt) < 1e-12]
+        if callers and rng.random() < 0.8:
+            u = rng.choice(callers)
+            s = cnt[min(cnt, key=lambda x: abs(x - u))]
+            tag = 'caller-knot-value'
+        elif case.get('discontinuous') and rng.random() < 0.4 and [k for k in so.interior_distinct(degs[d], U) if cnt[k] == degs[d] + 1]:
+            u = rng.choice([k for k in so.interior_distinct(degs[d], U) if cnt[k] == degs[d] + 1])
+            s, tag = degs[d] + 1, 'on-jump-knot'
+        elif full and rng.random() < 0.25:
             u, s, tag = rng.choice(full), degs[d], 'on-knot-full'
         elif pick is None:
             continue
         else:
             u, s, tag = pick
-        ctx.tag('near-start' if (fine and tag == 'in-span') else tag.split('-m')[0] if tag != 'on-knot-full' else tag)
+        ctx.tag('near-start' if (fine and tag == 'in-span') else tag.split('-m')[0] if tag not in ('on-knot-full', 'on-jump-knot', 'caller-knot-value') else tag)
         if tag == 'on-knot-full':
             ctx.tag('on-knot')
         if len(U) > 2 * (degs[d] + 1):
